@@ -47,7 +47,9 @@ RULE = ('E2 explicit-state exploration of library state: events (65: '
         'first-use initialisation races; same-thread re-entrancy: 8 outer '
         'encodes that reach application code (log handler of the key-'
         'truncation warning, methods of dict / list / int / str subclasses, '
-        'tzinfo) x 8 inner calls nested at every such point; a witness harness with a toggle '
+        'tzinfo) x 8 inner calls nested at every such point; six long '
+        'single histories of 70 000 (thorough 1.1 million) calls with '
+        'ever-changing arguments, every result compared with the reference; a witness harness with a toggle '
         'shows the interleavings are real. A state is a history or a schedule; non-trivial = history of '
         'length >= 2 / schedule with >= 1 preemption.')
 BOUNDS = {'quick': {'history_depth': '2 + all a;b;a + depth 3 over 16 core events', 'threads': 2, 'preemptions': '2 (1 for the header and 3-thread harnesses)'},
@@ -94,6 +96,7 @@ def tasks(tier, seed):
     depth = 3 if tier == 'thorough' else 2
     out = [('bfs',)]
     out += [('reentrant', i) for i in range(reentry.N_OUTERS)]
+    out += [('soak', k) for k in SOAK_KINDS]
     out += [('hist', i, depth) for i in range(len(EVENTS))]
     if depth < 3:
         # every depth-3 history over a core of 16 events (one per kind of
@@ -408,6 +411,101 @@ def explore_histories(ctx, first, depth):
             ctx.case(('hist', hist), True, sample=lambda: {
                 'history': [EVENTS[i][0] for i in hist]})
             run_history(ctx, hist)
+
+
+# ---------------------------------------------------------------------------
+# Long single histories: a process that has made very many calls
+
+
+SOAK_KINDS = ['marshal-method', 'unmarshal-method', 'header', 'table',
+              'body', 'construct']
+
+
+def soak(ctx, kind):
+    """ONE deterministic history of 70 000 calls (thorough 1 100 000: past
+    2^16 and 2^20) of one kind with ever-changing arguments; every single
+    result is compared with the reference codec.  Counters that wrap,
+    caches trimmed or rebuilt after thousands of entries, work done every
+    N-th call: whatever a long-running process meets that a short one does
+    not."""
+    from mc import refcodec, spec_table
+    p = lib.pamqp()
+    n = 1100000 if ctx.tier == 'thorough' else 70000
+    pub = spec_table.BY_NAME['Basic.Publish']
+    ack = spec_table.BY_NAME['Basic.Ack']
+    qd = spec_table.BY_NAME['Queue.Declare']
+    bad = None
+    ctx.case(('soak', kind, n), True, sample={'soak': kind, 'calls': n})
+    for i in range(n):
+        ch = i & 0xFFFF
+        if kind == 'marshal-method':
+            if i % 2:
+                got = p.frame.marshal(p.commands.Basic.Ack(i * 2654435761 %
+                                                           2**63, i % 3 == 0),
+                                      ch)
+                want = refcodec.enc_method_frame(
+                    ack, (i * 2654435761 % 2**63, i % 3 == 0), ch)[0]
+            else:
+                vec = (0, 'ex%d' % (i % 977), 'rk.%d' % i, i % 5 == 0,
+                       i % 7 == 0)
+                got = p.frame.marshal(p.commands.Basic.Publish(*vec), ch)
+                want = refcodec.enc_method_frame(pub, vec, ch)[0]
+            ok = got == want
+        elif kind == 'unmarshal-method':
+            vec = (0, 'ex%d' % (i % 977), 'rk.%d' % i, i % 5 == 0, i % 7 == 0)
+            data = refcodec.enc_method_frame(pub, vec, ch)[0]
+            consumed, channel, obj = p.frame.unmarshal(data)
+            got = (consumed, channel, obj.exchange, obj.routing_key,
+                   obj.mandatory, obj.immediate)
+            want = (len(data), ch, vec[1], vec[2], vec[3], vec[4])
+            ok = got == want
+        elif kind == 'header':
+            props = {'message_id': 'm-%d' % i, 'priority': i % 256,
+                     'delivery_mode': 1 + i % 2,
+                     'headers': {'n%d' % i: i, 'k': 'v%d' % (i % 131)}}
+            got = p.frame.marshal(p.header.ContentHeader(
+                0, i, p.commands.Basic.Properties(**props)), ch)
+            want = refcodec.enc_header_frame(i, props, ch)[0]
+            back = p.frame.unmarshal(got)[2]
+            ok = got == want and back.body_size == i and \
+                back.properties.message_id == props['message_id'] and \
+                back.properties.headers == props['headers']
+        elif kind == 'table':
+            t = {'name-%d' % i: 40000 + i, 's': 'value-%d' % i,
+                 'l': [i, -i, 'e%d' % (i % 61)], 'big': 3000000000 + i}
+            got = p.encode.field_table(t)
+            want = refcodec.enc_table(t)
+            ok = got == want and p.decode.field_table(got) == (len(got), t)
+        elif kind == 'body':
+            payload = (b'%d|' % i) * (1 + i % 13)
+            got = p.frame.marshal(p.body.ContentBody(payload), ch)
+            want = refcodec.enc_body_frame(payload, ch)[0]
+            back = p.frame.unmarshal(got)
+            ok = got == want and back[0] == len(got) and \
+                back[2].value == payload
+        else:
+            o = p.commands.Queue.Declare(queue='q%d' % i)
+            o.arguments['n'] = i
+            o2 = p.commands.Queue.Declare()
+            got = (o2.arguments, o2.queue, o.arguments)
+            want = ({}, '', {'n': i})
+            ok = got == want and o2.arguments is not o.arguments
+        if not ok:
+            bad = (i, got, want)
+            break
+    ctx.calls(n)
+    ctx.valid(n)
+    if bad:
+        ctx.outcome('history-dependent')
+        ctx.violation('soak|{}|{}'.format(kind, bad[0]),
+                      'long history of {} calls: call number {} gave {} '
+                      'instead of {}'.format(kind, bad[0] + 1,
+                                             short(bad[1], 200),
+                                             short(bad[2], 200)),
+                      {'kind': 'soak', 'soak': kind}, short(bad[2], 300),
+                      short(bad[1], 300))
+    else:
+        ctx.outcome('ok')
 
 
 # ---------------------------------------------------------------------------
@@ -871,6 +969,8 @@ def run(task, ctx):
             explore_core3(ctx, task[1])
         elif kind == 'reentrant':
             reentry.explore(ctx, task[1])
+        elif kind == 'soak':
+            soak(ctx, task[1])
         elif kind == 'cold':
             explore_schedules(ctx, task[1], (task[2], COLD_SHARDS), task[3],
                               cold=True)
@@ -895,7 +995,9 @@ def finish(merged, tier, seed):
 
 def replay(case, ctx):
     baselines()
-    if case['kind'] == 'reentrant':
+    if case['kind'] == 'soak':
+        soak(ctx, case['soak'])
+    elif case['kind'] == 'reentrant':
         reentry.explore(ctx, case['outer'])
     elif case['kind'] == 'hist':
         _run_history_here(ctx, tuple(case['hist']))
